@@ -321,8 +321,8 @@ def run(pid, tier):
             states += r["distinct"]
             trans += r["generated"]
             if r["rc"] == -9:
-                if C.within_budget(r, tier):
-                    continue
+                if C.within_budget(r, tier) or nviol:
+                    continue        # (a violation on a real execution stands, whatever became of the exhaustive job)
                 raise C.Inconclusive("exhaustive TLC run timed out: %s" % r["cfg"])
             inv, dead = C.tlc_violations(r["out"])
             if r.get("live"):
